@@ -96,7 +96,7 @@ class _Capture(logging.Handler):
         self.records.append((record.levelno, record.getMessage()))
 
 
-def _build(cfg, w, nan=False):
+def _build(cfg, w, nan=False, fortran=False):
     from flodym import MFASystem, Flow, Process, Dimension, DimensionSet, StockArray
     from flodym.stocks import SimpleFlowDrivenStock
 
@@ -112,7 +112,10 @@ def _build(cfg, w, nan=False):
             for idx in np.ndindex(*shape):
                 V[idx] = w.with_nan(V[idx], w.boolean(f"nan_f{i}" + "".join(f"_{k}" for k in idx)))
         F[name] = (a, b, d, V)
-        flows[name] = Flow(dims=DimensionSet(dim_list=[dims[l] for l in d]), from_process=procs[a], to_process=procs[b], name=name, values=V.copy())
+        vals = V.copy()
+        if fortran and vals.ndim >= 2 and i % 2 == 0:
+            vals = np.asfortranarray(vals).view(type(vals))  # column-major layout, same labels
+        flows[name] = Flow(dims=DimensionSet(dim_list=[dims[l] for l in d]), from_process=procs[a], to_process=procs[b], name=name, values=vals)
     stocks, S = {}, {}
     for j, sp in enumerate(cfg["stocks"]):
         d = ["ta", "t", "tab"][j % 3]
